@@ -100,4 +100,8 @@ def expectedAt (h : List Note) (u : Nat) : Nat → Option Nat
 
 def expected (h : List Note) (u : Nat) : Option Nat := expectedAt h u h.length
 
+/-- The text of an imported module that the analysis of its importer reads (`collect_dependency_modules`,
+src/lsp/backend.rs): the editor's, when the module is open there — whether or not it parses —, else the file's. -/
+def effectiveText (openText : Option String) (diskText : String) : String := openText.getD diskText
+
 end Incan.Lsp
